@@ -301,7 +301,7 @@ def concrete_playback(h, target_dir, timeout=900):
     return tests, out
 
 
-def native_replay(h, test_src, timeout=600, fail_locs=None):
+def native_replay(h, test_src, timeout=600, fail_locs=None, strict=False):
     """append the generated #[test] to a scratch copy of the harness crate and run it natively with
     `cargo kani playback` (dev profile = the profile Kani models) -- the real /repo code runs with the
     solver's concrete values. Returns (reproduced, output)."""
@@ -326,6 +326,12 @@ def native_replay(h, test_src, timeout=600, fail_locs=None):
     # A native panic INSIDE THE HARNESS FILE only confirms the counterexample when it is the check the solver reported:
     # harnesses with #[kani::stub]s run un-stubbed natively, so an unrelated harness assertion can trip (that would be an
     # encoding mismatch, not a defect of /repo). Panics inside /repo or std are accepted as they are.
+    if strict:
+        # refusal-style harness: panics inside /repo are the expected refusals; only the reported marker location counts
+        for m in re.finditer(r"panicked at (\S+?):(\d+):\d+", out):
+            if (os.path.basename(m.group(1)), int(m.group(2))) in (fail_locs or set()):
+                return True, out
+        return False, out + "\n[strict replay: no panic at the reported marker location]"
     if reproduced and fail_locs is not None:
         for m in re.finditer(r"panicked at (\S+?):(\d+):\d+", out):
             f, ln = os.path.basename(m.group(1)), int(m.group(2))
